@@ -414,8 +414,10 @@ def judge_comment(ctx, p, c, recs):
             from symex import core
             ctx.prove(core.SBool(ctx, z3.And(*[z3.And(ch != 59, ch != 10, ch != 13) for ch in got])), "C09: separator or line break inside a comment record")
         else:
-            if body != "".join(w) or ";" in body or "\n" in body:
+            if body != "".join(w):
                 ctx.violate("C09: comment record does not carry the stripped line of the argument")
+            if ";" in body or "\n" in body or "\r" in body:
+                ctx.violate("C09: separator or line break inside a comment record")
 
 
 def judge_misc(ctx, p, c, recs):
